@@ -56,6 +56,21 @@ BUILT = {
          "Paths are compared by their identifiers (generic arguments ignored), as the documentation of the settings says.",
          "proptest-driven generator + reference set model",
          "DESIGN.md section 5 C11"),
+ "C12": ("exploration",
+         "For every type id of tens of thousands of generated registries (cyclic graphs, empty enums, bit sequences, compact wrappers, maps, 1-tuples, Duration) and of the full Polkadot registry, and for boundary and random seeds, scale_value_from_seed runs under catch_unwind; a returned value must encode against the same id with scale-value, decode back consuming all input to an equal value, be reproducible for the seed, and must exist whenever the reachable types contain no cycle and no empty enum.",
+         "scale-value 0.18 (scale-encode 0.10 / scale-decode 0.16) is the reference codec. char and U256/I256 leaves are excluded from the main search (known findings: the pinned scale-encode cannot encode those primitives) and covered by probes; ids whose example would exceed 5000 leaves are skipped and counted.",
+         "proptest-driven generator + round-trip oracle through a third-party codec + determinism relation + totality predicate",
+         "DESIGN.md section 5 C12"),
+ "C13": ("exploration",
+         "For every type id of tens of thousands of generated registries (mutual recursion, repeated unnamed types, skipped parameters, bit sequences, 1-tuples, Box fields, U256) and of the full Polkadot registry the unformatted description is read by a strict lockstep matcher against the registry (expand-or-name at struct/enum positions with an independent name renderer, every structural token checked literally, consumed exactly), every reachable struct/enum must have been written out at least once, the formatted text must equal it up to whitespace, and the whitespace-free text passes the C15 formatter oracle.",
+         "The description grammar accepted by the matcher is written from the property text and the documented/pinned forms (`struct Unit()`, `enum E{}`, `BitSequence(order, store)`, field-level Box).",
+         "proptest-driven generator + lockstep matcher (validity predicate) + whitespace-erasure relation",
+         "DESIGN.md section 5 C13"),
+ "C14": ("exploration",
+         "For every type id of generated registries without bit sequences and 256-bit integers, and boundary/random seeds, under varied path settings, rust_value_from_seed runs under catch_unwind; a returned token stream must parse as a Rust expression and a lockstep walk against the registry and the emitted item for that id must accept it (paths without generics, field names and arity incl. the unused-parameter marker, typed literals, tuple/array/vec arity, Compact(..) accepted never required); two calls with one seed agree.",
+         "Coincidental (non-CF) programs are discarded because the emitted item's marker is the first instantiation's. For prelude types without a generated item (Option, BTreeMap, ...) only path and registry field list are checked.",
+         "proptest-driven generator + lockstep walk of syn::Expr against registry and parsed generated item + determinism relation",
+         "DESIGN.md section 5 C14"),
  "C15": ("exploration",
          "Bounded-exhaustive enumeration of all strings over the 9-character bracket alphabet up to length 7 (quick) / 9 (thorough) plus tape-driven random hostile strings and properly nested strings around the 32-character look-ahead, each checked against a whitespace-only relation and an indentation depth model; every description produced by the C13 check is also fed through it. Exploration is the right level: the function is total over strings, cheap, and its only state is a depth counter, so small-scope exhaustiveness plus boundary-directed generation covers its decision structure.",
          "Trusts the harness' depth model (validated against the unchanged formatter on the exhaustive stratum) and Rust's char::is_whitespace. The small/large scope decision is not constrained.",
